@@ -5214,7 +5214,11 @@ def elemwise(op, *args, out=None, where=True, dtype=None, name=None, **kwargs):
         )
 
     if not name:
-        name = f"{funcname(op)}-{tokenize(op, dtype, *args, where)}"
+        if where is True:
+            name = f"{funcname(op)}-{tokenize(op, dtype, *args, where)}"
+        else:
+            # ``out`` provides the values of the result where the mask is False
+            name = f"{funcname(op)}-{tokenize(op, dtype, *args, where, out)}"
 
     blockwise_kwargs = dict(dtype=dtype, name=name, token=funcname(op).strip("_"))
 
